@@ -156,6 +156,10 @@ def build_reference(modules):
             if fps:
                 ref.setdefault(mname, {}).setdefault(q, fps)
                 ref.setdefault('__allfp__', {}).setdefault(mname, {}).setdefault(q, fingerprints_all(f))
+            from .lib import _alias_map
+            al = {k: ast.unparse(v) for k, v in _alias_map(f).items()}
+            if al:
+                ref.setdefault('__aliases__', {}).setdefault(mname, {}).setdefault(q, al)
             bs = [[fp, names] for _n, fp, names in binders_of(f)]
             if bs:
                 ref.setdefault('__binders__', {}).setdefault(mname, {}).setdefault(q, bs)
